@@ -6,9 +6,10 @@
 //! 1..=5 exchanges, plus 5 explicit insertion orders. Every order is built through the real
 //! `IndexedInstruments::new(iter)` AND the real `IndexedInstruments::builder().add_instrument(..)
 //! .build()`. (Sanitizer tiers `miri`/`tsan`: 30 collections of 1..=4 definitions over 1..=2
-//! exchanges, 2 insertion orders, one thread, no coverage floor.) The oracle is pure set semantics computed from the definitions alone (BTreeSet of
-//! exchanges, of (exchange, asset internal name), of distinct definitions) — it never sorts and
-//! never predicts WHICH index an entity gets, only that:
+//! exchanges, 2 insertion orders, one thread, no coverage floor.) The oracle is pure set semantics
+//! computed from the definitions alone (BTreeSet of exchanges, of (exchange, asset internal name),
+//! of distinct definitions) — it never sorts and never predicts WHICH index an entity gets, only
+//! that:
 //!   * every distinct exchange / exchange-asset / instrument occupies exactly one slot, slot i
 //!     carries key i (dense 0..n), counts equal the set sizes;
 //!   * `find_*_index` / `find_*` are mutual inverses for every element and every index, and fail
